@@ -4,7 +4,9 @@ from .pdb import strip, walk, loc, ancestors
 from .terms import Ctx, num, show, lin_add, lin_sub
 from .common import (P, F, SIZE, LEN, GE, effects, callee_path, call_args, ctor_summary, in_macro, effective_guards, entry_guards,
                      is_push, same_dim, local_ties, is_zero_term, canon_atom, guard_alts)
-from .guards import for_range, facts, cond_atoms, norm_cmp
+from .guards import facts, cond_atoms, norm_cmp
+from .guards import for_range as raw_for_range
+from .common import for_range_total as for_range
 
 LEVEL = "other"
 S = "sparse::Sparse<T>"
@@ -229,7 +231,7 @@ def run(rep, pdb, tier):
         for n in walk(fn["body"]):
             if n.get("k") == "If" and [a for a in ancestors(n) if a.get("k") == "For"]:
                 lp = [a for a in ancestors(n) if a.get("k") == "For"][-1]
-                r = for_range(ctx, lp)
+                r = raw_for_range(ctx, lp)
                 atoms = {canon_atom(a) for a in cond_atoms(ctx, n["cond"], True) if a[0] == "cmp"}
                 tests.append((r, atoms, n))
         ok = g and len(tests) == 1
@@ -258,8 +260,12 @@ def run(rep, pdb, tier):
                 if okb:
                     tv = pu[0].target
                     okb = ctx.def_term(tv) == ("call", "%s::to_triplets" % S, P(0)) and rb[0].value == ("call", "%s::from_triplets" % S, ROWS, COLS, tv)
-                ok = ok and okw and okb
-                det = "overwrites val[k] of the matching k and returns=%s; else rebuilds from to_triplets()+new triplet with the same shape=%s" % (okw, okb)
+                # the only early return is the one after overwriting the matching entry
+                all_rets = [x for x in walk(fn["body"]) if x.get("k") == "Ret"]
+                in_branch = [x for x in walk(ifn["then"]) if x.get("k") == "Ret"]
+                only = len(all_rets) == len(in_branch) == 1
+                ok = ok and okw and okb and only
+                det = "overwrites val[k] of the matching k and returns=%s; else rebuilds from to_triplets()+new triplet with the same shape=%s; no other early return=%s" % (okw, okb, only)
         rep.add("lookup/%s" % name, rule, ok, fn["body"], det, where=loc(fn["body"]))
     rep.add("lookup/agree", "get and insert use the same membership test and range", len(sig) == 2 and sig["get"] == sig["insert"], None, "", where="src/sparse.rs")
     # ---- transpose shape / scatter
@@ -287,7 +293,11 @@ def check_transpose(rep, pdb, walks, key):
     ab = ctx.binds.get(at[1]) if at is not None and at[0] == "var" else None
     ai = ctx.term(ab.init) if ab is not None and ab.init is not None else None
     alloc = ai is not None and ai == ("call", "%s::new_nonzero" % S, COLS, ROWS, NNZ)
-    ok = alloc and len(walks["transpose"]) == 4
+    rets = [x for x in walk(fn["body"]) if x.get("k") == "Ret"]
+    ok = alloc and len(walks["transpose"]) == 4 and not rets
+    if rets:
+        rep.bad(key + "/single-exit", "transpose has no early return: every input goes through the (cols, rows, nnz) allocation and the scatter", rets[0],
+                "early return at %s" % loc(rets[0]))
     det = "alloc (cols, rows, nonzero)=%s walk statements=%d" % (alloc, len(walks.get("transpose", [])))
     if ok:
         (c1, i1, j1), (sr, i2, j2), (sv, i3, j3), (c2, i4, j4) = walks["transpose"]
